@@ -227,7 +227,7 @@ def r2(R):
 
 
 @rule('C19.R3', 'save and load agree on the stream: position, (prefix, '
-      'bucket) pairs, terminating None', min_instances=2)
+      'bucket) pairs, terminating None', props=['C09'], min_instances=2)
 def r3(R):
     cls = R.prog.cls(FSINDEX)
     save = R.method(cls, 'save')
